@@ -22,6 +22,10 @@ pub uninterp spec fn p_mul_r(a: P, b: Scalar) -> P;
 pub uninterp spec fn p_id() -> P;
 pub uninterp spec fn msm(s: Seq<Scalar>, p: Seq<P>) -> P;
 
+// product of the inverses of a sequence, left to right (return value of Scalar::batch_invert)
+pub open spec fn batch_inv_prod(v: Seq<Scalar>) -> Scalar
+    decreases v.len()
+{ if v.len() == 0 { Scalar::ONE } else { s_mul(batch_inv_prod(v.drop_last()), s_inv(v.last())) } }
 impl Scalar {
     #[verifier::external_body]
     pub const ZERO: Scalar = (Scalar { b: [0u8; 32] });
@@ -35,6 +39,7 @@ impl Scalar {
     pub fn batch_invert(v: &mut Vec<Scalar>) -> (r: Scalar)
         ensures final(v)@.len() == old(v)@.len(),
             forall|i: int| 0 <= i < old(v)@.len() ==> final(v)@[i] == s_inv(old(v)@[i]),
+            r == batch_inv_prod(old(v)@),
     { unimplemented!() }
     #[verifier::external_body]
     pub fn to_bytes(&self) -> (r: [u8; 32]) ensures r@ == scalar_bytes(*self) { unimplemented!() }
